@@ -899,7 +899,7 @@ func goText(e ast.Node) string {
 
 func genSpend() (string, error) {
 	var b strings.Builder
-	b.WriteString("(* GENERATED by `harness factgen` from /repo/keeper/poa.go — do not edit. *)\nFrom Coq Require Import List String.\nImport ListNotations.\nOpen Scope string_scope.\n\n")
+	b.WriteString("(* GENERATED by `harness factgen` from /repo/keeper/poa.go — do not edit. *)\nFrom Coq Require Import ZArith List String.\nRequire Import Tie.GuardLang.\nImport ListNotations.\nOpen Scope string_scope.\nOpen Scope Z_scope.\n\n")
 	body, err := methodBody("keeper/poa.go", "Keeper", "SetPOAPower")
 	if err != nil {
 		return "", err
@@ -959,7 +959,49 @@ func genSpend() (string, error) {
 		return "[\n  " + strings.Join(qs, ";\n  ") + "\n]"
 	}
 	b.WriteString("Definition x_setpoa_spend_definitions : list string := " + q(defs) + ".\n\n")
-	b.WriteString("Definition x_setpoa_increase_calls : list string := " + q(increase) + ".\n")
+	b.WriteString("Definition x_setpoa_increase_calls : list string := " + q(increase) + ".\n\n")
+	// the same statements as expression trees (Tie/SpendSem.v interprets them): the definition of the new power, of the tokens
+	// read, the initial value, the condition and the conditional value of powerBefore, and the term added
+	pairArguments, nestedGuards, bindings = true, true, map[string]string{}
+	defer func() { pairArguments, nestedGuards, bindings = false, false, nil }()
+	tree := map[string]string{"newBFTConsensusPower": "", "currentTokens": "", "powerBefore": "", "absPowerDiff": ""}
+	cond, then := "(GUnknown \"no conditional assignment of powerBefore\")", "(GUnknown \"no conditional assignment of powerBefore\")"
+	nCond := 0
+	if body != nil {
+		for _, st := range body.List {
+			switch s := st.(type) {
+			case *ast.AssignStmt:
+				if len(s.Lhs) == 1 && len(s.Rhs) == 1 && s.Tok == token.DEFINE {
+					if id, ok := s.Lhs[0].(*ast.Ident); ok {
+						if _, watched := tree[id.Name]; watched {
+							if tree[id.Name] != "" {
+								tree[id.Name] = "(GUnknown \"defined twice\")"
+							} else {
+								tree[id.Name] = gxOf(s.Rhs[0])
+							}
+						}
+					}
+				}
+			case *ast.IfStmt:
+				if s.Init == nil && s.Else == nil && len(s.Body.List) == 1 {
+					if a, ok := s.Body.List[0].(*ast.AssignStmt); ok && a.Tok == token.ASSIGN && len(a.Lhs) == 1 && len(a.Rhs) == 1 && exprString(a.Lhs[0]) == "powerBefore" {
+						cond, then = gxOf(s.Cond), gxOf(a.Rhs[0])
+						nCond++
+					}
+				}
+			}
+		}
+	}
+	for _, name := range []string{"newBFTConsensusPower", "currentTokens", "powerBefore", "absPowerDiff"} {
+		v := tree[name]
+		if v == "" {
+			v = "(GUnknown \"not defined at the top level\")"
+		}
+		b.WriteString("Definition x_spend_" + name + " : gx := " + v + ".\n")
+	}
+	b.WriteString("Definition x_spend_powerBefore_cond : gx := " + cond + ".\n")
+	b.WriteString("Definition x_spend_powerBefore_then : gx := " + then + ".\n")
+	b.WriteString(fmt.Sprintf("Definition x_spend_powerBefore_conditionals : nat := %d.\n", nCond))
 	return b.String(), nil
 }
 
